@@ -347,7 +347,7 @@ func c19CheckDict(tb ev.TB, rec *ev.Rec, dir string, table *ipdict.IPTable, d c1
 			} else if p.Equal(net.IPv6zero) {
 				key = "false-positive-::"
 			}
-			w := map[string]any{"dict": d, "file": fileText, "probe": p.String(), "probe_len": len(f), "want": want, "got": got, "why": why}
+			w := map[string]any{"dict": d, "ws": ws, "file": fileText, "probe": p.String(), "probe_len": len(f), "want": want, "got": got, "why": why}
 			if !rec.Fail(tb, key, w, "Search(%s)=%v, want %v (%s); dict(%s)=%v", p, got, want, why, d.Path, d.Entries) {
 				rec.Excluded("known-finding:" + key)
 				return false
@@ -420,6 +420,18 @@ func TestC19(t *testing.T) {
 		dir = t.TempDir()
 	}
 	extra := c19Extra()
+	if w := replayWitness(t); w != nil {
+		var d c19Dict
+		var ws []int
+		replayInto(t, w["dict"], &d)
+		if w["ws"] != nil {
+			replayInto(t, w["ws"], &ws)
+		}
+		if c19CheckDict(t, rec, dir, ipdict.NewIPTable(), d, ws, extra, "replay") {
+			t.Logf("replayed dictionary holds")
+		}
+		return
+	}
 
 	// deterministic sweep: every pair of ranges inside one 6-address window, for the :: block and the 0.0.0.0 block,
 	// plus a third fixed range, through both paths
